@@ -42,6 +42,7 @@ func checkC18(c *Ctx) {
 		frameFilesHardened(c, p, m)
 		pathRulesTraversal(c, p, "R18.8")
 		pathComparedAsGiven(c, p, "R18.2")
+		regexpMatchOnlyDecides(c, p, "R18.2")
 		privacyOnByDefault(c, p, "R18.9")
 		var slogFns []*ssa.Function
 		for _, fn := range p.RepoFuncs() {
@@ -125,7 +126,8 @@ func c18Check(c *Ctx, p *Prog, m *Model) {
 			}
 			n++
 			ok := false
-			if call, isC := fs.Val.(*ssa.Call); isC && calleeOf(call) == cp {
+			if call, isC := fs.Val.(*ssa.Call); isC && (calleeOf(call) == cp || (calleeOf(call) != nil && calleeOf(call).Pkg == p.Slog && isBaseNameFn(calleeOf(call)))) {
+				// checkpath(frame.File), or the bare file name of it (no directory left to protect)
 				if _, _, f, isF := fieldLoad(strip(call.Common().Args[0])); isF && nm(f) == "File" {
 					ok = true
 				}
